@@ -27,8 +27,8 @@ pub fn build_replay(p: &dyn Property, seed: u64, idx: u64, sub: u64, tier: Tier,
     let original_steps = sc.steps.len();
     let (mut cur_v, mut cur_digest, fired) = fails(p, &sc, &v.clause)?;
     let original_faults = fired.len() + sc.net.explicit.as_ref().map(|e| e.len()).unwrap_or(0);
-    let deadline = Instant::now() + Duration::from_secs(90);
-    let mut budget = 400usize;
+    let deadline = Instant::now() + Duration::from_secs(150);
+    let mut budget = 700usize;
     let mut minimised = false;
 
     let attempt = |cand: Scenario, sc: &mut Scenario, cur_v: &mut Violation, cur_digest: &mut String, budget: &mut usize| -> bool {
@@ -51,6 +51,14 @@ pub fn build_replay(p: &dyn Property, seed: u64, idx: u64, sub: u64, tier: Tier,
         let mut cand = sc.clone();
         cand.net.explicit = Some(fired.clone());
         cand.net.clear_random_faults();
+        if attempt(cand, &mut sc, &mut cur_v, &mut cur_digest, &mut budget) {
+            minimised = true;
+        }
+    }
+    // 1b. cut the run right after the violation (makes every later re-execution cheaper)
+    if cur_v.t > 0 && cur_v.t + 2_000 < sc.end_ms {
+        let mut cand = sc.clone();
+        cand.end_ms = cur_v.t + 2_000;
         if attempt(cand, &mut sc, &mut cur_v, &mut cur_digest, &mut budget) {
             minimised = true;
         }
@@ -100,23 +108,68 @@ pub fn build_replay(p: &dyn Property, seed: u64, idx: u64, sub: u64, tier: Tier,
             minimised = true;
         }
     }
-    // 4. workload steps -> Nop (indices stay stable, dependants keep their timing)
-    for k in (0..sc.steps.len()).rev() {
-        if matches!(sc.steps[k].op, Op::Nop) {
-            continue;
+    // 4. workload steps -> Nop (indices stay stable, dependants keep their timing): first
+    //    everything scheduled after the violation at once, then ddmin (halves .. singles)
+    {
+        let late: Vec<usize> = sc.steps.iter().enumerate().filter(|(_, s)| !matches!(s.op, Op::Nop) && matches!(s.when, crate::exec::When::At(t) if t > cur_v.t + 1_000)).map(|(i, _)| i).collect();
+        if !late.is_empty() {
+            let mut cand = sc.clone();
+            for i in &late {
+                cand.steps[*i].op = Op::Nop;
+            }
+            if attempt(cand, &mut sc, &mut cur_v, &mut cur_digest, &mut budget) {
+                minimised = true;
+            }
         }
-        let mut cand = sc.clone();
-        cand.steps[k].op = Op::Nop;
-        if attempt(cand, &mut sc, &mut cur_v, &mut cur_digest, &mut budget) {
-            minimised = true;
+        let mut live: Vec<usize> = sc.steps.iter().enumerate().filter(|(_, s)| !matches!(s.op, Op::Nop)).map(|(i, _)| i).collect();
+        let mut chunk = (live.len() / 2).max(1);
+        loop {
+            let mut i = 0;
+            let mut progressed = false;
+            while i < live.len() && budget > 0 {
+                let end = (i + chunk).min(live.len());
+                let mut cand = sc.clone();
+                for k in &live[i..end] {
+                    cand.steps[*k].op = Op::Nop;
+                }
+                if attempt(cand, &mut sc, &mut cur_v, &mut cur_digest, &mut budget) {
+                    live.drain(i..end);
+                    progressed = true;
+                    minimised = true;
+                } else {
+                    i = end;
+                }
+            }
+            if chunk == 1 && !progressed {
+                break;
+            }
+            if budget == 0 {
+                break;
+            }
+            chunk = (chunk / 2).max(1);
         }
     }
-    // 5. stubs
-    for k in (0..sc.world.stubs.len()).rev() {
-        let mut cand = sc.clone();
-        cand.world.stubs.remove(k);
-        if attempt(cand, &mut sc, &mut cur_v, &mut cur_digest, &mut budget) {
-            minimised = true;
+    // 5. stubs (halves .. singles)
+    {
+        let mut chunk = (sc.world.stubs.len() / 2).max(1);
+        loop {
+            let mut i = 0;
+            let mut progressed = false;
+            while i < sc.world.stubs.len() && budget > 0 {
+                let end = (i + chunk).min(sc.world.stubs.len());
+                let mut cand = sc.clone();
+                cand.world.stubs.drain(i..end);
+                if attempt(cand, &mut sc, &mut cur_v, &mut cur_digest, &mut budget) {
+                    progressed = true;
+                    minimised = true;
+                } else {
+                    i = end;
+                }
+            }
+            if (chunk == 1 && !progressed) || budget == 0 {
+                break;
+            }
+            chunk = (chunk / 2).max(1);
         }
     }
     // 6. latencies
@@ -144,6 +197,67 @@ pub fn build_replay(p: &dyn Property, seed: u64, idx: u64, sub: u64, tier: Tier,
         let mut cand = sc.clone();
         cand.steps.pop();
         if !attempt(cand, &mut sc, &mut cur_v, &mut cur_digest, &mut budget) {
+            break;
+        }
+    }
+
+
+    // 8. virtual time: cut the run right after the violation, then collapse idle gaps between
+    //    workload instants towards the nearest protocol constant (everything scheduled later --
+    //    steps, outages, partitions, fault window -- moves with the gap)
+    let shift = |sc: &Scenario, from: u64, by: u64| -> Scenario {
+        let mut c = sc.clone();
+        let mv = |t: &mut u64| {
+            if *t >= from {
+                *t -= by;
+            }
+        };
+        for st in c.steps.iter_mut() {
+            if let crate::exec::When::At(t) = &mut st.when {
+                mv(t);
+            }
+        }
+        for o in c.net.outages.iter_mut() {
+            mv(&mut o.from_ms);
+            mv(&mut o.to_ms);
+        }
+        for o in c.net.partitions.iter_mut() {
+            mv(&mut o.from_ms);
+            mv(&mut o.to_ms);
+        }
+        if c.net.fault_to_ms > 0 {
+            mv(&mut c.net.fault_from_ms);
+            mv(&mut c.net.fault_to_ms);
+        }
+        mv(&mut c.end_ms);
+        c
+    };
+    const KEEP: [u64; 7] = [86_400_000, 1_800_000, 1_200_000, 900_000, 600_000, 60_000, 10_000];
+    for _round in 0..12 {
+        let mut times: Vec<u64> = sc.steps.iter().filter(|s| !matches!(s.op, Op::Nop)).filter_map(|s| match s.when {
+            crate::exec::When::At(t) => Some(t),
+            _ => None,
+        }).collect();
+        times.sort();
+        times.dedup();
+        let mut progressed = false;
+        for w in (1..times.len()).rev() {
+            let gap = times[w] - times[w - 1];
+            for keep in KEEP {
+                if gap > keep + keep / 10 {
+                    let cand = shift(&sc, times[w], gap - keep);
+                    if attempt(cand, &mut sc, &mut cur_v, &mut cur_digest, &mut budget) {
+                        minimised = true;
+                        progressed = true;
+                        break;
+                    }
+                }
+            }
+            if progressed {
+                break;
+            }
+        }
+        if !progressed {
             break;
         }
     }
